@@ -1,6 +1,26 @@
-(* TrilFloat.v — the f64 pipeline of rowvec_to_tril_index (src/distance.rs) agrees with the exact
-   integer square root model Matrix.tril_inv for every linear index k < 2^50 (property C13).
-   PROOF FILE. *)
+(* TrilFloat.v — the f64 pipeline of rowvec_to_tril_index (src/distance.rs)
+     let p = (((1.0 + 8.0 * (k as f64)).sqrt() - 1.0) / 2.0).floor() as usize; (p + 1, k - p * (p + 1) / 2)
+   agrees with the exact integer square root model Matrix.tril_inv for every linear index k < 2^50
+   (property C13).  PROOF FILE.
+
+   Contents
+   1. tril_inv_fl : Z -> Z * Z, the pipeline on Coq's primitive binary64 floats (hardware operations
+      in the VM, specified by the FloatAxioms of the standard library); float_floor_Z, tests.
+   2. tril_inv_Z (Matrix.tril_inv read on Z, tril_inv_Z_correct) and Examples by vm_compute, among them
+      k = T p - 1, T p, T p + 1 for p = 2^25, 2^25 + 12345 and p = P_last = 47453132 (T P_last < 2^50).
+   3. fl_inv_sweep, fl_inv_sweep_strided, fl_inv_sweep_top: boundary_ok P — exactness at T P and at
+      T P - 1 — by evaluating tril_inv_fl in the VM: all P < 2^18, every 4099-th P up to P_last,
+      the last 2^14 values up to P_last + 1.
+   4. fl_inv : forall k, k < 2^50 -> tril_inv_fl k = tril_inv k — THE THEOREM, proved analytically with
+      Flocq (correct rounding of + - * / sqrt, monotonicity of rounding, binary64 representability
+      of the interval ends 2p+1 and 2p+3 - 2^-26).  Also tril_p_fl_mono: the whole float pipeline,
+      floor included, is monotone in k (k < 2^53).
+   5. fl_inv_sweep_full: boundary_ok P for EVERY P < 2^27 (machine-integer/float-comparison test,
+      proved sound, 64 chunks of 2^21); fl_inv_from_boundaries (the monotone squeeze);
+      fl_inv_upto: agreement for every k < T (2^27 - 1) = 2^53 - 2^26; fl_inv_by_sweep: fl_inv again,
+      from sweep and squeeze only.
+   Nothing is assumed beyond the standard library's specification of the primitive floats and
+   integers and the classical real numbers (Print Assumptions at the end of the file). *)
 From PT Require Import Matrix Tril.
 From Coq Require Import Lia ZArith NArith List Arith Bool Reals Lra Psatz.
 From Coq Require Import Floats Uint63 SpecFloat.
@@ -82,3 +102,851 @@ Example cast_t4 : f64_floor_to_usize infinity = usize_max. Proof. vm_compute. re
 Example cast_t5 : f64_floor_to_usize neg_infinity = 0%Z. Proof. vm_compute. reflexivity. Qed.
 Example cast_t6 : f64_floor_to_usize 18446744073709549568%float = 18446744073709549568%Z.
 Proof. vm_compute. reflexivity. Qed.
+
+(* ================================================================================================ *)
+(* 2. the integer model on Z, and examples                                                          *)
+(* ================================================================================================ *)
+Local Open Scope Z_scope.
+
+Lemma row_bounds_Z : forall k p : nat, (T p <= k < T (S p))%nat ->
+  let K := Z.of_nat k in let P := Z.of_nat p in
+  (2 * P + 1) * (2 * P + 1) <= 1 + 8 * K <= (2 * P + 3) * (2 * P + 3) - 8 /\
+  Z.of_nat (T p) = TZ P.
+Proof.
+  intros k p [H1 H2] K P. pose proof (T_double p) as Hd. rewrite T_S in H2.
+  assert (HT : Z.of_nat (T p) = TZ P).
+  { unfold TZ. apply Z.div_unique_exact; [lia|]. unfold P. nia. }
+  split; [|assumption]. unfold K, P. nia.
+Qed.
+
+(* tril_inv_Z is Matrix.tril_inv read on Z (tril_inv itself cannot be evaluated on a unary 2^50) *)
+Lemma tril_inv_Z_correct : forall k : nat, tril_inv_Z (Z.of_nat k) = pairZ (tril_inv k).
+Proof.
+  intros k. rewrite tril_inv_eq. cbv zeta. unfold tril_inv_Z.
+  pose proof (sqrt_row k) as Hr. cbv zeta in Hr.
+  assert (Hs : Z.sqrt (1 + 8 * Z.of_nat k) = Z.of_nat (N.to_nat (N.sqrt (1 + 8 * N.of_nat k)))).
+  { rewrite N_nat_Z. apply Z.sqrt_unique.
+    pose proof (N.sqrt_spec (1 + 8 * N.of_nat k) (N.le_0_l _)) as [Hs1 Hs2]. lia. }
+  assert (Hs1 : 1 <= Z.sqrt (1 + 8 * Z.of_nat k)).
+  { apply Z.sqrt_le_square; lia. }
+  set (s := N.to_nat (N.sqrt (1 + 8 * N.of_nat k))) in *.
+  assert (Hp : (Z.sqrt (1 + 8 * Z.of_nat k) - 1) / 2 = Z.of_nat ((s - 1) / 2)).
+  { rewrite Hs. rewrite Nat2Z.inj_div. f_equal. lia. }
+  rewrite Hp.
+  set (p := ((s - 1) / 2)%nat) in *.
+  destruct (row_bounds_Z k p Hr) as [_ HT]. cbv zeta in HT. unfold TZ in HT.
+  unfold pairZ; simpl fst; simpl snd. f_equal; [lia|]. rewrite <- HT. lia.
+Qed.
+
+(* T 47453132 < 2^50 < T 47453133 : 47453132 is the last row that starts below 2^50 *)
+Definition P_last : Z := 47453132.
+Example P_last_ok : TZ P_last < 2 ^ 50 < TZ (P_last + 1). Proof. vm_compute. split; reflexivity. Qed.
+
+Example ex_small : map tril_inv_fl [0; 1; 2; 3; 4; 5; 6; 9; 10; 11] =
+                   [(1, 0); (2, 0); (2, 1); (3, 0); (3, 1); (3, 2); (4, 0); (4, 3); (5, 0); (5, 1)].
+Proof. vm_compute. reflexivity. Qed.
+Example ex_small_agree : map tril_inv_fl (map Z.of_nat (seq 0 200)) = map pairZ (map tril_inv (seq 0 200)).
+Proof. vm_compute. reflexivity. Qed.
+Example ex_mid : map tril_inv_fl [1000000; 123456789012; 999999999999999] =
+                 map tril_inv_Z [1000000; 123456789012; 999999999999999].
+Proof. vm_compute. reflexivity. Qed.
+(* p near 2^25 (k near 2^49 .. 2^49.99): both sides of the boundary and one past it *)
+Example ex_2p25 : let p := 2 ^ 25 in
+  map tril_inv_fl [TZ p - 1; TZ p; TZ p + 1] = [(p, p - 1); (p + 1, 0); (p + 1, 1)] /\
+  map tril_inv_Z  [TZ p - 1; TZ p; TZ p + 1] = [(p, p - 1); (p + 1, 0); (p + 1, 1)].
+Proof. vm_compute. split; reflexivity. Qed.
+Example ex_2p25_odd : let p := 2 ^ 25 + 12345 in
+  map tril_inv_fl [TZ p - 1; TZ p; TZ p + 1] = [(p, p - 1); (p + 1, 0); (p + 1, 1)] /\
+  map tril_inv_Z  [TZ p - 1; TZ p; TZ p + 1] = [(p, p - 1); (p + 1, 0); (p + 1, 1)].
+Proof. vm_compute. split; reflexivity. Qed.
+Example ex_last : let p := P_last in
+  map tril_inv_fl [TZ p - 1; TZ p; TZ p + 1; 2 ^ 50 - 1] = [(p, p - 1); (p + 1, 0); (p + 1, 1); (p + 1, 14811345)] /\
+  map tril_inv_Z  [TZ p - 1; TZ p; TZ p + 1; 2 ^ 50 - 1] = [(p, p - 1); (p + 1, 0); (p + 1, 1); (p + 1, 14811345)].
+Proof. vm_compute. split; reflexivity. Qed.
+Example ex_last_nat : tril_inv_fl (TZ P_last - 1) = pairZ (tril_inv (Z.to_nat (TZ P_last - 1))).
+Proof. rewrite <- tril_inv_Z_correct. rewrite Z2Nat.id by (vm_compute; discriminate). vm_compute. reflexivity. Qed.
+
+(* ================================================================================================ *)
+(* 3. finite sweeps, evaluating tril_inv_fl itself in the kernel's VM                               *)
+(* ================================================================================================ *)
+
+(* the float pipeline is exact on BOTH sides of the triangular boundary that starts row P + 1 *)
+Definition boundary_ok (P : Z) : Prop :=
+  tril_inv_fl (TZ P) = (P + 1, 0) /\ (1 <= P -> tril_inv_fl (TZ P - 1) = (P, P - 1)).
+
+Definition pair_eqb (x y : Z * Z) : bool := (fst x =? fst y) && (snd x =? snd y).
+Lemma pair_eqb_eq : forall x y, pair_eqb x y = true -> x = y.
+Proof.
+  intros [a b] [c d] H. unfold pair_eqb in H. simpl in H. apply andb_prop in H as [H1 H2].
+  apply Z.eqb_eq in H1. apply Z.eqb_eq in H2. subst. reflexivity.
+Qed.
+
+Definition boundary_okb (P : Z) : bool :=
+  pair_eqb (tril_inv_fl (TZ P)) (P + 1, 0) &&
+  ((P <? 1) || pair_eqb (tril_inv_fl (TZ P - 1)) (P, P - 1)).
+
+Lemma boundary_okb_ok : forall P, boundary_okb P = true -> boundary_ok P.
+Proof.
+  intros P H. unfold boundary_okb in H. apply andb_prop in H as [H1 H2]. split.
+  - apply pair_eqb_eq. assumption.
+  - intros HP. apply orb_prop in H2 as [H2|H2].
+    + apply Z.ltb_lt in H2. lia.
+    + apply pair_eqb_eq. assumption.
+Qed.
+
+(* n boundaries starting at p, step d *)
+Fixpoint sweepZ (n : nat) (p d : Z) : bool :=
+  match n with O => true | S n' => if boundary_okb p then sweepZ n' (p + d) d else false end.
+
+Lemma sweepZ_ok : forall n p d, sweepZ n p d = true ->
+  forall i, 0 <= i < Z.of_nat n -> boundary_ok (p + i * d).
+Proof.
+  induction n as [|n IH]; intros p d H i Hi; [lia|].
+  simpl in H. destruct (boundary_okb p) eqn:E; [|discriminate].
+  destruct (Z.eq_dec i 0) as [->|Hne].
+  - replace (p + 0 * d) with p by lia. apply boundary_okb_ok. assumption.
+  - replace (p + i * d) with ((p + d) + (i - 1) * d) by lia. apply IH; [assumption|lia].
+Qed.
+
+Definition chunk : nat := Nat.pow 2 16.
+Lemma chunk_Z : Z.of_nat chunk = 65536. Proof. vm_compute. reflexivity. Qed.
+Lemma sweep_dense_0 : sweepZ chunk (0 * 65536) 1 = true. Proof. vm_cast_no_check (eq_refl true). Qed.
+Lemma sweep_dense_1 : sweepZ chunk (1 * 65536) 1 = true. Proof. vm_cast_no_check (eq_refl true). Qed.
+Lemma sweep_dense_2 : sweepZ chunk (2 * 65536) 1 = true. Proof. vm_cast_no_check (eq_refl true). Qed.
+Lemma sweep_dense_3 : sweepZ chunk (3 * 65536) 1 = true. Proof. vm_cast_no_check (eq_refl true). Qed.
+
+(* RANGES COVERED by evaluating tril_inv_fl itself (Prim2SF-based floor and all):
+     fl_inv_sweep          every P with 0 <= P < 2^18                       (dense)
+     fl_inv_sweep_strided  P = 4099 * i for 0 <= i <= 11576, i.e. up to 47450024 <= P_last
+     fl_inv_sweep_top      every P with P_last + 2 - 2^14 <= P <= P_last + 1 = 47453133
+   (section 5 sweeps EVERY P < 2^27 with a faster, proved-sound test) *)
+Definition P_dense : Z := 2 ^ 18.
+Theorem fl_inv_sweep : forall P, 0 <= P < P_dense -> boundary_ok P.
+Proof.
+  intros P HP. unfold P_dense in HP.
+  assert (Hc : forall c, sweepZ chunk (c * 65536) 1 = true -> c * 65536 <= P < (c + 1) * 65536 -> boundary_ok P).
+  { intros c Hs Hr. replace P with (c * 65536 + (P - c * 65536) * 1) by lia.
+    apply (sweepZ_ok _ _ _ Hs). rewrite chunk_Z. lia. }
+  destruct (Z_lt_le_dec P (1 * 65536)); [apply (Hc 0 sweep_dense_0); lia|].
+  destruct (Z_lt_le_dec P (2 * 65536)); [apply (Hc 1 sweep_dense_1); lia|].
+  destruct (Z_lt_le_dec P (3 * 65536)); [apply (Hc 2 sweep_dense_2); lia|].
+  apply (Hc 3 sweep_dense_3); lia.
+Qed.
+
+Definition smallchunk : nat := Nat.pow 2 14.
+Lemma smallchunk_Z : Z.of_nat smallchunk = 16384. Proof. vm_compute. reflexivity. Qed.
+
+Lemma sweep_strided_0 : sweepZ smallchunk 0 4099 = true. Proof. vm_cast_no_check (eq_refl true). Qed.
+Theorem fl_inv_sweep_strided : forall i, 0 <= i <= 11576 -> boundary_ok (4099 * i).
+Proof.
+  intros i Hi. replace (4099 * i) with (0 + i * 4099) by lia.
+  apply (sweepZ_ok _ _ _ sweep_strided_0). rewrite smallchunk_Z. lia.
+Qed.
+
+Lemma sweep_top_0 : sweepZ smallchunk (P_last + 2 - 16384) 1 = true. Proof. vm_cast_no_check (eq_refl true). Qed.
+Theorem fl_inv_sweep_top : forall P, P_last + 2 - 16384 <= P <= P_last + 1 -> boundary_ok P.
+Proof.
+  intros P HP. replace P with ((P_last + 2 - 16384) + (P - (P_last + 2 - 16384)) * 1) by lia.
+  apply (sweepZ_ok _ _ _ sweep_top_0). rewrite smallchunk_Z. lia.
+Qed.
+Local Close Scope Z_scope.
+
+(* ================================================================================================ *)
+(* 4. the analytic proof: Flocq's IEEE-754 semantics of the PrimFloat operations                    *)
+(* ================================================================================================ *)
+Local Open Scope R_scope.
+
+Notation fexp64 := (SpecFloat.fexp prec emax).
+Notation RND := (round radix2 fexp64 ZnearestE).
+Notation rsqrt := R_sqrt.sqrt.
+(* the real value and the finiteness of a primitive float, through Flocq's binary_float *)
+Definition FR (x : f64) : R := B2R (Prim2B x).
+Definition fin (x : f64) : Prop := is_finite (Prim2B x) = true.
+
+(* ---- floor ---- *)
+Lemma SF_floor_Z_B2SF : forall b : binary_float prec emax, SF_floor_Z (B2SF b) = Zfloor (B2R b).
+Proof.
+  intros [s|s| |s m e H]; simpl; try (symmetry; apply (Zfloor_IZR 0)).
+  unfold F2R; simpl Fnum; simpl Fexp.
+  destruct (Z.leb_spec 0 e) as [He|He].
+  - rewrite <- (Zfloor_IZR (cond_Zopp s (Z.pos m) * 2 ^ e)). f_equal.
+    rewrite mult_IZR. f_equal. rewrite (IZR_Zpower radix2) by assumption. reflexivity.
+  - rewrite <- Zfloor_div.
+    + f_equal. unfold Rdiv. f_equal.
+      rewrite (IZR_Zpower radix2) by lia. rewrite <- bpow_opp. f_equal. lia.
+    + apply Z.pow_nonzero; lia.
+Qed.
+
+Lemma float_floor_Z_correct : forall x, float_floor_Z x = Zfloor (FR x).
+Proof. intros x. unfold float_floor_Z, FR. rewrite <- B2SF_Prim2B. apply SF_floor_Z_B2SF. Qed.
+
+Lemma to_usize_correct : forall x, fin x -> 0 <= FR x < IZR (2 ^ 64) ->
+  f64_floor_to_usize x = Zfloor (FR x).
+Proof.
+  intros x Hf [H0 H1]. unfold f64_floor_to_usize.
+  assert (Hfl : SF_floor_Z (Prim2SF x) = Zfloor (FR x)) by apply float_floor_Z_correct.
+  assert (0 <= Zfloor (FR x) <= usize_max)%Z.
+  { split.
+    - apply Zfloor_lub. simpl. assumption.
+    - assert (Zfloor (FR x) < 2 ^ 64)%Z; [|unfold usize_max; lia].
+      apply lt_IZR. apply Rle_lt_trans with (FR x); [apply Zfloor_lb | assumption]. }
+  unfold fin in Hf. rewrite <- B2SF_Prim2B in *.
+  destruct (Prim2B x); simpl in Hf; try discriminate; simpl B2SF in *; cbv iota; rewrite Hfl; lia.
+Qed.
+
+(* ---- the operations: value = rounding to nearest-even of the exact result, when no overflow ---- *)
+Definition ok (r : R) := Rabs r < bpow radix2 emax.
+
+Lemma Rlt_bool_ok : forall r, ok r -> Rlt_bool (Rabs r) (bpow radix2 emax) = true.
+Proof. intros. apply Rlt_bool_true. assumption. Qed.
+
+Lemma fl_add : forall x y, fin x -> fin y -> ok (RND (FR x + FR y)) ->
+  FR (x + y) = RND (FR x + FR y) /\ fin (x + y).
+Proof.
+  intros x y Hx Hy Hok. unfold FR, fin. rewrite add_equiv.
+  pose proof (Bplus_correct prec emax Hprec Hmax mode_NE (Prim2B x) (Prim2B y) Hx Hy) as H.
+  simpl round_mode in H. fold (FR x) (FR y) in H. rewrite (Rlt_bool_ok _ Hok) in H.
+  destruct H as (H1 & H2 & _). split; assumption.
+Qed.
+
+Lemma fl_sub : forall x y, fin x -> fin y -> ok (RND (FR x - FR y)) ->
+  FR (x - y) = RND (FR x - FR y) /\ fin (x - y).
+Proof.
+  intros x y Hx Hy Hok. unfold FR, fin. rewrite sub_equiv.
+  pose proof (Bminus_correct prec emax Hprec Hmax mode_NE (Prim2B x) (Prim2B y) Hx Hy) as H.
+  simpl round_mode in H. fold (FR x) (FR y) in H. rewrite (Rlt_bool_ok _ Hok) in H.
+  destruct H as (H1 & H2 & _). split; assumption.
+Qed.
+
+Lemma fl_mul : forall x y, fin x -> fin y -> ok (RND (FR x * FR y)) ->
+  FR (x * y) = RND (FR x * FR y) /\ fin (x * y).
+Proof.
+  intros x y Hx Hy Hok. unfold FR, fin. rewrite mul_equiv.
+  pose proof (Bmult_correct prec emax Hprec Hmax mode_NE (Prim2B x) (Prim2B y)) as H.
+  simpl round_mode in H. fold (FR x) (FR y) in H. rewrite (Rlt_bool_ok _ Hok) in H.
+  destruct H as (H1 & H2 & _). split; [assumption|]. rewrite H2, Hx, Hy. reflexivity.
+Qed.
+
+Lemma fl_div : forall x y, fin x -> FR y <> 0 -> ok (RND (FR x / FR y)) ->
+  FR (x / y) = RND (FR x / FR y) /\ fin (x / y).
+Proof.
+  intros x y Hx Hy Hok. unfold FR, fin. rewrite div_equiv.
+  pose proof (Bdiv_correct prec emax Hprec Hmax mode_NE (Prim2B x) (Prim2B y) Hy) as H.
+  simpl round_mode in H. fold (FR x) (FR y) in H. rewrite (Rlt_bool_ok _ Hok) in H.
+  destruct H as (H1 & H2 & _). split; [assumption|]. rewrite H2. assumption.
+Qed.
+
+Lemma fl_sqrt : forall x, fin x -> 0 < FR x ->
+  FR (fsqrt x) = RND (rsqrt (FR x)) /\ fin (fsqrt x).
+Proof.
+  intros x Hx Hpos. unfold FR, fin in *. rewrite sqrt_equiv.
+  pose proof (Bsqrt_correct prec emax Hprec Hmax mode_NE (Prim2B x)) as H.
+  simpl round_mode in H. destruct H as (H1 & H2 & _). split; [assumption|]. rewrite H2.
+  destruct (Prim2B x) as [s|s| |s m e Hb]; simpl in Hx, Hpos |- *; try discriminate; try lra.
+  destruct s; [|reflexivity]. exfalso.
+  assert (F2R (Float radix2 (Z.neg m) e) < 0) by (apply F2R_lt_0; simpl; lia).
+  simpl in Hpos. lra.
+Qed.
+
+(* ---- format and rounding facts ---- *)
+Local Instance fexp64_valid : Valid_exp fexp64 := fexp_correct prec emax Hprec.
+
+Lemma fmt : forall m e, (Z.abs m < 2 ^ 53)%Z -> (-1074 <= e)%Z ->
+  generic_format radix2 fexp64 (IZR m * bpow radix2 e).
+Proof.
+  intros m e Hm He.
+  change fexp64 with (FLT_exp (-1074) 53).
+  apply generic_format_FLT.
+  exists (Float radix2 m e); [reflexivity | exact Hm | exact He].
+Qed.
+
+Lemma fmt_int : forall m, (Z.abs m < 2 ^ 53)%Z -> generic_format radix2 fexp64 (IZR m).
+Proof.
+  intros m Hm. replace (IZR m) with (IZR m * bpow radix2 0) by (simpl; lra). apply fmt; [assumption|lia].
+Qed.
+
+Lemma RND_le : forall x y, x <= y -> RND x <= RND y.
+Proof. intros. apply round_le; try typeclasses eauto. assumption. Qed.
+
+Lemma RND_id : forall x, generic_format radix2 fexp64 x -> RND x = x.
+Proof. intros. apply round_generic; [typeclasses eauto | assumption]. Qed.
+
+Lemma RND_bounds : forall a b x, generic_format radix2 fexp64 a -> generic_format radix2 fexp64 b ->
+  a <= x <= b -> a <= RND x <= b.
+Proof.
+  intros a b x Ha Hb [H1 H2]. split.
+  - rewrite <- (RND_id a Ha). apply RND_le. assumption.
+  - rewrite <- (RND_id b Hb). apply RND_le. assumption.
+Qed.
+
+Lemma ok_small : forall r, Rabs r <= IZR (2 ^ 64) -> ok r.
+Proof.
+  intros r H. unfold ok. apply Rle_lt_trans with (1 := H).
+  change (2 ^ 64)%Z with (Zpower radix2 64). rewrite IZR_Zpower by lia. apply bpow_lt. reflexivity.
+Qed.
+
+Lemma ok_range : forall r, 0 <= r <= 536870912 -> ok r.
+Proof. intros r H. apply ok_small. rewrite Rabs_pos_eq by lra. simpl. lra. Qed.
+
+(* ---- conversion from integers: exact below 2^53 ---- *)
+Lemma fl_of_int : forall i : int, (to_Z i < 2 ^ 53)%Z ->
+  FR (of_uint63 i) = IZR (to_Z i) /\ fin (of_uint63 i).
+Proof.
+  intros i Hi. pose proof (to_Z_bounded i) as Hb. unfold FR, fin.
+  rewrite of_int63_equiv. set (k := to_Z i) in *.
+  pose proof (binary_normalize_correct prec emax Hprec Hmax mode_NE k 0 false) as H.
+  cbv zeta in H. simpl round_mode in H.
+  assert (Hx : F2R (Float radix2 k 0) = IZR k) by (unfold F2R; simpl; lra).
+  rewrite Hx in H.
+  assert (Hr : RND (IZR k) = IZR k) by (apply RND_id, fmt_int; lia).
+  rewrite Hr in H. rewrite Rlt_bool_true in H.
+  - destruct H as (H1 & H2 & _). split; assumption.
+  - apply ok_small. rewrite Rabs_pos_eq by (apply IZR_le; lia). apply IZR_le. lia.
+Qed.
+
+Lemma to_Z_of_Z : forall k, (0 <= k < 2 ^ 62)%Z -> to_Z (of_Z k) = k.
+Proof. intros k Hk. rewrite of_Z_spec. apply Z.mod_small. change wB with (2 ^ 63)%Z. lia. Qed.
+
+Lemma fl_of_usize : forall k, (0 <= k < 2 ^ 53)%Z ->
+  FR (f64_of_usize k) = IZR k /\ fin (f64_of_usize k).
+Proof.
+  intros k Hk. unfold f64_of_usize. rewrite <- (to_Z_of_Z k) at 2 by lia.
+  apply fl_of_int. rewrite to_Z_of_Z; lia.
+Qed.
+
+(* ---- constants ---- *)
+Lemma FR_SF : forall x, FR x = SF2R radix2 (Prim2SF x).
+Proof. intros. unfold FR, Prim2B. apply B2R_SF2B. Qed.
+Lemma fin_SF : forall x, is_finite_SF (Prim2SF x) = true -> fin x.
+Proof. intros. unfold fin, Prim2B. rewrite is_finite_SF2B. assumption. Qed.
+
+Lemma FR_1 : FR f64_1 = 1 /\ fin f64_1.
+Proof. split; [rewrite FR_SF|apply fin_SF]; vm_compute Prim2SF; [|reflexivity]. unfold SF2R, F2R; simpl. lra. Qed.
+Lemma FR_2 : FR f64_2 = 2 /\ fin f64_2.
+Proof. split; [rewrite FR_SF|apply fin_SF]; vm_compute Prim2SF; [|reflexivity]. unfold SF2R, F2R; simpl. lra. Qed.
+Lemma FR_8 : FR f64_8 = 8 /\ fin f64_8.
+Proof. split; [rewrite FR_SF|apply fin_SF]; vm_compute Prim2SF; [|reflexivity]. unfold SF2R, F2R; simpl. lra. Qed.
+
+(* ---- the value of the pipeline, for every k < 2^53 ---- *)
+Lemma sqrt_lo : forall a x, 0 <= a -> a * a <= x -> a <= rsqrt x.
+Proof. intros a x Ha H. rewrite <- (sqrt_square a Ha). apply sqrt_le_1_alt. assumption. Qed.
+Lemma sqrt_hi : forall b x, 0 <= b -> x <= b * b -> rsqrt x <= b.
+Proof. intros b x Hb H. rewrite <- (sqrt_square b Hb). apply sqrt_le_1_alt. assumption. Qed.
+
+Definition pipeR (k : Z) : R := RND (RND (RND (rsqrt (RND (1 + 8 * IZR k))) - 1) / 2).
+
+Lemma fmt_1 : generic_format radix2 fexp64 1. Proof. apply (fmt_int 1). reflexivity. Qed.
+Lemma fmt_0 : generic_format radix2 fexp64 0. Proof. apply (fmt_int 0). reflexivity. Qed.
+Lemma fmt_2p29 : generic_format radix2 fexp64 536870912. Proof. apply (fmt_int 536870912). reflexivity. Qed.
+Lemma fmt_2p57 : generic_format radix2 fexp64 144115188075855872.
+Proof.
+  replace 144115188075855872 with (IZR 1 * bpow radix2 57) by (simpl; lra). apply fmt; [reflexivity|lia].
+Qed.
+
+Lemma pipeR_steps : forall k, (0 <= k < 2 ^ 53)%Z ->
+  let n := RND (1 + 8 * IZR k) in let r := RND (rsqrt n) in let a := RND (r - 1) in
+  1 <= n <= 144115188075855872 /\ 1 <= r <= 536870912 /\ 0 <= a <= 536870912 /\ 0 <= pipeR k <= 536870912.
+Proof.
+  intros k Hk n r a.
+  assert (Hk0 : 0 <= IZR k) by (apply IZR_le; lia).
+  assert (Hk1 : IZR k <= 9007199254740992) by (apply IZR_le; lia).
+  assert (Hn : 1 <= n <= 144115188075855872).
+  { apply RND_bounds; [apply fmt_1|apply fmt_2p57|lra]. }
+  assert (Hr : 1 <= r <= 536870912).
+  { apply RND_bounds; [apply fmt_1|apply fmt_2p29|]. split; [apply sqrt_lo|apply sqrt_hi]; lra. }
+  assert (Ha : 0 <= a <= 536870912).
+  { apply RND_bounds; [apply fmt_0|apply fmt_2p29|lra]. }
+  split; [exact Hn|]. split; [exact Hr|]. split; [exact Ha|].
+  unfold pipeR; fold n; fold r; fold a.
+  apply RND_bounds; [apply fmt_0|apply fmt_2p29|lra].
+Qed.
+
+Lemma pipeline_value : forall k, (0 <= k < 2 ^ 53)%Z ->
+  fin (tril_pipeline k) /\ FR (tril_pipeline k) = pipeR k.
+Proof.
+  intros k Hk. destruct (pipeR_steps k Hk) as (Hn & Hr & Ha & Hp). cbv zeta in *.
+  unfold tril_pipeline.
+  destruct FR_1 as [V1 F1]. destruct FR_2 as [V2 F2]. destruct FR_8 as [V8 F8].
+  destruct (fl_of_usize k Hk) as [V0 F0].
+  set (x0 := f64_of_usize k) in *.
+  assert (Hk0 : 0 <= IZR k) by (apply IZR_le; lia).
+  assert (Hk1 : IZR k <= 9007199254740992) by (apply IZR_le; lia).
+  (* 8 * k : exact *)
+  assert (R1 : RND (FR f64_8 * FR x0) = 8 * IZR k).
+  { rewrite V8, V0. apply RND_id.
+    replace (8 * IZR k) with (IZR k * bpow radix2 3) by (simpl; lra). apply fmt; lia. }
+  destruct (fl_mul f64_8 x0 F8 F0) as [W1 G1].
+  { rewrite R1. apply ok_small. rewrite Rabs_pos_eq by lra. simpl. lra. }
+  rewrite R1 in W1. set (x1 := (f64_8 * x0)%float) in *.
+  destruct (fl_add f64_1 x1 F1 G1) as [W2 G2].
+  { rewrite V1, W1. apply ok_small. rewrite Rabs_pos_eq by lra. simpl. lra. }
+  rewrite V1, W1 in W2. set (x2 := (f64_1 + x1)%float) in *.
+  destruct (fl_sqrt x2 G2) as [W3 G3]; [rewrite W2; lra|].
+  rewrite W2 in W3. set (x3 := fsqrt x2) in *.
+  destruct (fl_sub x3 f64_1 G3 F1) as [W4 G4].
+  { rewrite W3, V1. apply ok_range. lra. }
+  rewrite W3, V1 in W4. set (x4 := (x3 - f64_1)%float) in *.
+  destruct (fl_div x4 f64_2 G4) as [W5 G5].
+  { rewrite V2. lra. }
+  { rewrite W4, V2. apply ok_range. exact Hp. }
+  rewrite W4, V2 in W5. split; [assumption|]. exact W5.
+Qed.
+
+Lemma pipeR_mono : forall k k', (k <= k')%Z -> pipeR k <= pipeR k'.
+Proof.
+  intros k k' H. apply IZR_le in H. unfold pipeR.
+  apply RND_le. apply Rmult_le_compat_r; [lra|]. apply RND_le. apply Rplus_le_compat_r.
+  apply RND_le. apply sqrt_le_1_alt. apply RND_le. lra.
+Qed.
+
+Lemma tril_p_fl_value : forall k, (0 <= k < 2 ^ 53)%Z -> tril_p_fl k = Zfloor (pipeR k).
+Proof.
+  intros k Hk. destruct (pipeline_value k Hk) as [F V]. destruct (pipeR_steps k Hk) as (_ & _ & _ & Hp).
+  unfold tril_p_fl. rewrite to_usize_correct; [rewrite V; reflexivity|assumption|].
+  rewrite V. simpl. lra.
+Qed.
+
+(* monotonicity of the whole float pipeline, floor included *)
+Theorem tril_p_fl_mono : forall k k', (0 <= k)%Z -> (k <= k')%Z -> (k' < 2 ^ 53)%Z -> (tril_p_fl k <= tril_p_fl k')%Z.
+Proof.
+  intros k k' H0 H1 H2. rewrite !tril_p_fl_value by lia. apply Zfloor_le. apply pipeR_mono. assumption.
+Qed.
+
+(* ---- the analytic core ---- *)
+Definition d26 : R := bpow radix2 (-26).
+Definition d27 : R := bpow radix2 (-27).
+Lemma d26_val : d26 = / 67108864. Proof. unfold d26. simpl. reflexivity. Qed.
+Lemma d27_val : d27 = / 134217728. Proof. unfold d27. simpl. reflexivity. Qed.
+
+(* for (2p+1)^2 <= 1+8k <= (2p+3)^2 - 8, i.e. T p <= k < T (p+1), with 1+8k < 2^53 and 2p+3 <= 2^27:
+   1+8k is computed exactly;  sqrt(1+8k) lies in [2p+1, 2p+3 - 2^-26] because
+   (2p+3 - 2^-26)^2 >= (2p+3)^2 - 4 and both ends are binary64 numbers, so the rounded root stays
+   in that interval;  subtracting 1 and halving map it to [p, p+1 - 2^-27] (again binary64 ends) *)
+Lemma pipeR_bounds : forall k p : Z,
+  (0 <= k)%Z -> (0 <= p)%Z -> (1 + 8 * k < 2 ^ 53)%Z -> (2 * p + 3 <= 2 ^ 27)%Z ->
+  ((2 * p + 1) * (2 * p + 1) <= 1 + 8 * k <= (2 * p + 3) * (2 * p + 3) - 8)%Z ->
+  IZR p <= pipeR k <= IZR p + 1 - d27.
+Proof.
+  intros k p Hk Hp Hn Hq [Hlo Hhi]. unfold pipeR.
+  assert (R2 : RND (1 + 8 * IZR k) = 1 + 8 * IZR k).
+  { apply RND_id. replace (1 + 8 * IZR k) with (IZR (1 + 8 * k)) by (rewrite plus_IZR, mult_IZR; reflexivity).
+    apply fmt_int. lia. }
+  rewrite R2. set (n := 1 + 8 * IZR k). set (rp := IZR p).
+  assert (Hrp : 0 <= rp) by (apply IZR_le; assumption).
+  assert (Hrq : 2 * rp + 3 <= 134217728).
+  { unfold rp. apply IZR_le in Hq. rewrite plus_IZR, mult_IZR in Hq. simpl in Hq. lra. }
+  assert (Hnlo : (2 * rp + 1) * (2 * rp + 1) <= n).
+  { unfold rp, n. apply IZR_le in Hlo. rewrite !mult_IZR, !plus_IZR, !mult_IZR in Hlo. lra. }
+  assert (Hnhi : n <= (2 * rp + 3) * (2 * rp + 3) - 8).
+  { unfold rp, n. apply IZR_le in Hhi. rewrite minus_IZR, !mult_IZR, !plus_IZR, !mult_IZR in Hhi. lra. }
+  pose proof d26_val as D26. pose proof d27_val as D27.
+  assert (B3 : 2 * rp + 1 <= RND (rsqrt n) <= 2 * rp + 3 - d26).
+  { apply RND_bounds.
+    - replace (2 * rp + 1) with (IZR (2 * p + 1)) by (rewrite plus_IZR, mult_IZR; reflexivity).
+      apply fmt_int; lia.
+    - replace (2 * rp + 3 - d26) with (IZR ((2 * p + 3) * 2 ^ 26 - 1) * bpow radix2 (-26)).
+      + apply fmt; lia.
+      + fold d26. rewrite minus_IZR, mult_IZR, plus_IZR, mult_IZR. fold rp.
+        change (IZR (2 ^ 26)) with 67108864. rewrite D26. field.
+    - split.
+      + apply sqrt_lo; lra.
+      + apply sqrt_hi; [rewrite D26; lra|]. rewrite D26.
+        replace ((2 * rp + 3 - / 67108864) * (2 * rp + 3 - / 67108864))
+          with ((2 * rp + 3) * (2 * rp + 3) - (2 * (2 * rp + 3) * / 67108864 - / 67108864 * / 67108864)) by field.
+        lra. }
+  set (r := RND (rsqrt n)) in *.
+  assert (B4 : 2 * rp <= RND (r - 1) <= 2 * rp + 2 - d26).
+  { apply RND_bounds.
+    - replace (2 * rp) with (IZR (2 * p)) by (rewrite mult_IZR; reflexivity).
+      apply fmt_int; lia.
+    - replace (2 * rp + 2 - d26) with (IZR ((2 * p + 2) * 2 ^ 26 - 1) * bpow radix2 (-26)).
+      + apply fmt; lia.
+      + fold d26. rewrite minus_IZR, mult_IZR, plus_IZR, mult_IZR. fold rp.
+        change (IZR (2 ^ 26)) with 67108864. rewrite D26. field.
+    - lra. }
+  set (a := RND (r - 1)) in *.
+  apply RND_bounds.
+  - apply fmt_int; lia.
+  - replace (rp + 1 - d27) with (IZR ((2 * p + 2) * 2 ^ 26 - 1) * bpow radix2 (-27)).
+    + apply fmt; lia.
+    + fold d27. rewrite minus_IZR, mult_IZR, plus_IZR, mult_IZR. fold rp.
+      change (IZR (2 ^ 26)) with 67108864. rewrite D27. field.
+  - rewrite D26 in B4. rewrite D27. lra.
+Qed.
+
+Lemma tril_p_fl_correct : forall k p : Z,
+  (0 <= k)%Z -> (0 <= p)%Z -> (1 + 8 * k < 2 ^ 53)%Z -> (2 * p + 3 <= 2 ^ 27)%Z ->
+  ((2 * p + 1) * (2 * p + 1) <= 1 + 8 * k <= (2 * p + 3) * (2 * p + 3) - 8)%Z ->
+  tril_p_fl k = p.
+Proof.
+  intros k p Hk Hp Hn Hq Hb.
+  destruct (pipeR_bounds k p Hk Hp Hn Hq Hb) as [B1 B2].
+  rewrite tril_p_fl_value by lia.
+  assert (0 < d27) by (rewrite d27_val; lra).
+  apply Zfloor_imp. rewrite plus_IZR. lra.
+Qed.
+Local Close Scope R_scope.
+Local Open Scope Z_scope.
+
+(* THE THEOREM (C13): below 2^50 the f64 pipeline and the exact integer square root agree *)
+Theorem fl_inv : forall k : nat, Z.of_nat k < 2 ^ 50 -> tril_inv_fl (Z.of_nat k) = pairZ (tril_inv k).
+Proof.
+  intros k Hk. rewrite tril_inv_eq. cbv zeta.
+  pose proof (sqrt_row k) as Hr. cbv zeta in Hr.
+  set (p := ((N.to_nat (N.sqrt (1 + 8 * N.of_nat k)) - 1) / 2)%nat) in *.
+  destruct (row_bounds_Z k p Hr) as [Hb HT]. cbv zeta in Hb, HT. unfold TZ in HT.
+  assert (Hq : 2 * Z.of_nat p + 3 <= 2 ^ 27).
+  { assert (Z.of_nat p * (Z.of_nat p + 1) <= 2 * Z.of_nat k).
+    { pose proof (T_double p). nia. }
+    nia. }
+  unfold tril_inv_fl.
+  rewrite (tril_p_fl_correct (Z.of_nat k) (Z.of_nat p)) by lia.
+  unfold pairZ; simpl fst; simpl snd. f_equal; [lia|].
+  rewrite <- HT. lia.
+Qed.
+
+Corollary fl_inv_Z : forall k : Z, 0 <= k < 2 ^ 50 -> tril_inv_fl k = tril_inv_Z k.
+Proof.
+  intros k Hk. rewrite <- (Z2Nat.id k) by lia. rewrite tril_inv_Z_correct. apply fl_inv. lia.
+Qed.
+
+Corollary fl_inv_nat : forall k : nat, Z.of_nat k < 2 ^ 50 ->
+  tril_inv k = (Z.to_nat (fst (tril_inv_fl (Z.of_nat k))), Z.to_nat (snd (tril_inv_fl (Z.of_nat k)))).
+Proof.
+  intros k Hk. rewrite (fl_inv k Hk). unfold pairZ. cbn [fst snd]. rewrite !Nat2Z.id. destruct (tril_inv k); reflexivity.
+Qed.
+Local Close Scope Z_scope.
+
+(* ================================================================================================ *)
+(* 5. a second, computational proof: EVERY boundary is swept, and the pipeline is monotone          *)
+(* ================================================================================================ *)
+
+(* ---- a fast boundary test on machine integers and float comparisons, proved sound ---- *)
+Definition pipeline_int (i : int) : f64 :=
+  ((fsqrt (f64_1 + f64_8 * of_uint63 i) - f64_1) / f64_2)%float.
+
+(* p <= x < p + 1, decided by two float comparisons *)
+Definition in_row (x : f64) (p : int) : bool :=
+  (of_uint63 p <=? x)%float && (x <? of_uint63 (p + 1)%uint63)%float.
+
+Definition chk_int (p : int) : bool :=
+  let t := ((p * (p + 1)) >> 1)%uint63 in
+  in_row (pipeline_int t) p && ((p =? 0)%uint63 || in_row (pipeline_int (t - 1)) (p - 1)).
+
+Fixpoint sweep_int (n : nat) (p : int) : bool :=
+  match n with O => true | S n' => if chk_int p then sweep_int n' (p + 1)%uint63 else false end.
+
+Local Open Scope Z_scope.
+
+Lemma wB_val : wB = 2 ^ 63. Proof. reflexivity. Qed.
+
+Lemma to_Z_succ : forall p : int, to_Z p < 2 ^ 62 -> to_Z (p + 1)%uint63 = to_Z p + 1.
+Proof.
+  intros p Hp. pose proof (to_Z_bounded p). rewrite Uint63.add_spec, to_Z_1. apply Z.mod_small.
+  rewrite wB_val. lia.
+Qed.
+
+Lemma to_Z_pred : forall p : int, 1 <= to_Z p -> to_Z (p - 1)%uint63 = to_Z p - 1.
+Proof.
+  intros p Hp. pose proof (to_Z_bounded p). rewrite Uint63.sub_spec, to_Z_1. apply Z.mod_small. lia.
+Qed.
+
+Lemma to_Z_tri : forall p : int, to_Z p < 2 ^ 27 -> to_Z ((p * (p + 1)) >> 1)%uint63 = TZ (to_Z p).
+Proof.
+  intros p Hp. pose proof (to_Z_bounded p).
+  rewrite Uint63.lsr_spec, to_Z_1, Uint63.mul_spec, to_Z_succ by lia. unfold TZ.
+  rewrite Z.mod_small by (rewrite wB_val; nia). reflexivity.
+Qed.
+
+Lemma in_row_sound : forall x p, to_Z p + 1 < 2 ^ 53 -> in_row x p = true ->
+  fin x /\ (IZR (to_Z p) <= FR x < IZR (to_Z p + 1))%R.
+Proof.
+  intros x p Hp H. unfold in_row in H. apply andb_prop in H as [H1 H2].
+  rewrite leb_equiv in H1. rewrite ltb_equiv in H2.
+  pose proof (to_Z_bounded p) as Hb.
+  destruct (fl_of_int p ltac:(lia)) as [Va Fa].
+  destruct (fl_of_int (p + 1)%uint63 ltac:(rewrite to_Z_succ; lia)) as [Vb Fb].
+  rewrite to_Z_succ in Vb by lia.
+  unfold FR, fin in *.
+  set (a := Prim2B (of_uint63 p)) in *. set (b := Prim2B (of_uint63 (p + 1))) in *.
+  set (X := Prim2B x) in *.
+  assert (FX : is_finite X = true).
+  { destruct X as [s|[|]| |s m e Hm]; try reflexivity.
+    - destruct a as [sa|sa| |sa ma ea Ha]; try discriminate Fa; destruct sa; discriminate H1.
+    - destruct b as [sa|sa| |sa ma ea Ha]; try discriminate Fb; destruct sa; discriminate H2.
+    - destruct a as [sa|sa| |sa ma ea Ha]; try discriminate Fa; discriminate H1. }
+  split; [assumption|].
+  rewrite Bleb_correct in H1 by assumption. rewrite Bltb_correct in H2 by assumption.
+  rewrite Va in H1. rewrite Vb in H2.
+  destruct (Rle_bool_spec (IZR (to_Z p)) (B2R X)); [|discriminate].
+  destruct (Rlt_bool_spec (B2R X) (IZR (to_Z p + 1))); [|discriminate].
+  split; assumption.
+Qed.
+
+Lemma tril_pipeline_int : forall i : int, tril_pipeline (to_Z i) = pipeline_int i.
+Proof. intros i. unfold tril_pipeline, pipeline_int, f64_of_usize. rewrite of_to_Z. reflexivity. Qed.
+
+Lemma in_row_floor : forall (t p : int), to_Z t < 2 ^ 53 -> to_Z p + 1 < 2 ^ 53 ->
+  in_row (pipeline_int t) p = true -> tril_p_fl (to_Z t) = to_Z p.
+Proof.
+  intros t p Ht Hp H. pose proof (to_Z_bounded t).
+  destruct (in_row_sound _ _ Hp H) as [F [B1 B2]].
+  rewrite <- tril_pipeline_int in B1, B2.
+  destruct (pipeline_value (to_Z t) ltac:(lia)) as [_ V]. rewrite V in B1, B2.
+  rewrite tril_p_fl_value by lia. apply Zfloor_imp. split; assumption.
+Qed.
+
+Lemma TZ_S : forall P, 0 <= P -> TZ (P + 1) = TZ P + P + 1.
+Proof.
+  intros P HP. unfold TZ. replace ((P + 1) * (P + 1 + 1)) with (P * (P + 1) + (P + 1) * 2) by ring.
+  rewrite Z.div_add by lia. lia.
+Qed.
+
+Lemma TZ_pos : forall P, 1 <= P -> 1 <= TZ P.
+Proof. intros P HP. unfold TZ. apply Z.div_le_lower_bound; nia. Qed.
+
+Lemma chk_int_ok : forall p : int, to_Z p < 2 ^ 27 -> chk_int p = true -> boundary_ok (to_Z p).
+Proof.
+  intros p Hp H. pose proof (to_Z_bounded p) as Hb. unfold chk_int in H. cbv zeta in H.
+  apply andb_prop in H as [H1 H2].
+  set (t := ((p * (p + 1)) >> 1)%uint63) in *.
+  assert (Ht : to_Z t = TZ (to_Z p)) by (apply to_Z_tri; lia).
+  assert (Htb : TZ (to_Z p) < 2 ^ 53).
+  { unfold TZ. apply Z.div_lt_upper_bound; nia. }
+  split.
+  - unfold tril_inv_fl. rewrite <- Ht. rewrite (in_row_floor t p) by first [lia | assumption].
+    rewrite Ht. unfold TZ. f_equal. lia.
+  - intros HP. apply orb_prop in H2 as [H2|H2].
+    + apply Uint63.eqb_spec in H2. subst p. rewrite to_Z_0 in HP. lia.
+    + pose proof (TZ_pos _ HP) as Ht1.
+      assert (Ht' : to_Z (t - 1)%uint63 = TZ (to_Z p) - 1) by (rewrite to_Z_pred; lia).
+      assert (Hp' : to_Z (p - 1)%uint63 = to_Z p - 1) by (apply to_Z_pred; lia).
+      unfold tril_inv_fl. rewrite <- Ht'. rewrite (in_row_floor (t - 1)%uint63 (p - 1)%uint63) by first [lia | assumption].
+      rewrite Ht', Hp'. f_equal; [lia|].
+      pose proof (TZ_S (to_Z p - 1) ltac:(lia)) as HS.
+      unfold TZ in *. replace (to_Z p - 1 + 1) with (to_Z p) in * by lia. lia.
+Qed.
+
+Lemma sweep_int_ok : forall n p0, sweep_int n (of_Z p0) = true -> 0 <= p0 -> p0 + Z.of_nat n <= 2 ^ 27 ->
+  forall P, p0 <= P < p0 + Z.of_nat n -> boundary_ok P.
+Proof.
+  induction n as [|n IH]; intros p0 H H0 Hn P HP; [lia|].
+  simpl in H. destruct (chk_int (of_Z p0)) eqn:E; [|discriminate].
+  assert (Hz : to_Z (of_Z p0) = p0) by (apply to_Z_of_Z; lia).
+  destruct (Z.eq_dec P p0) as [->|Hne].
+  - rewrite <- Hz. apply chk_int_ok; [rewrite Hz; lia|assumption].
+  - apply (IH (p0 + 1)); try lia.
+    replace (of_Z (p0 + 1)) with (of_Z p0 + 1)%uint63; [assumption|].
+    apply to_Z_inj. rewrite to_Z_succ by lia. rewrite Hz. rewrite to_Z_of_Z; lia.
+Qed.
+
+(* the chunks: 64 * 2^21 = 2^27 boundaries, i.e. every row that starts below 2^53 - 2^26 *)
+Definition bigchunk : nat := Nat.pow 2 21.
+Definition P_swept : Z := 2 ^ 27.
+Lemma sweep_full_0 : sweep_int bigchunk (of_Z (0 * 2097152)) = true. Proof. vm_cast_no_check (eq_refl true). Qed.
+Lemma sweep_full_1 : sweep_int bigchunk (of_Z (1 * 2097152)) = true. Proof. vm_cast_no_check (eq_refl true). Qed.
+Lemma sweep_full_2 : sweep_int bigchunk (of_Z (2 * 2097152)) = true. Proof. vm_cast_no_check (eq_refl true). Qed.
+Lemma sweep_full_3 : sweep_int bigchunk (of_Z (3 * 2097152)) = true. Proof. vm_cast_no_check (eq_refl true). Qed.
+Lemma sweep_full_4 : sweep_int bigchunk (of_Z (4 * 2097152)) = true. Proof. vm_cast_no_check (eq_refl true). Qed.
+Lemma sweep_full_5 : sweep_int bigchunk (of_Z (5 * 2097152)) = true. Proof. vm_cast_no_check (eq_refl true). Qed.
+Lemma sweep_full_6 : sweep_int bigchunk (of_Z (6 * 2097152)) = true. Proof. vm_cast_no_check (eq_refl true). Qed.
+Lemma sweep_full_7 : sweep_int bigchunk (of_Z (7 * 2097152)) = true. Proof. vm_cast_no_check (eq_refl true). Qed.
+Lemma sweep_full_8 : sweep_int bigchunk (of_Z (8 * 2097152)) = true. Proof. vm_cast_no_check (eq_refl true). Qed.
+Lemma sweep_full_9 : sweep_int bigchunk (of_Z (9 * 2097152)) = true. Proof. vm_cast_no_check (eq_refl true). Qed.
+Lemma sweep_full_10 : sweep_int bigchunk (of_Z (10 * 2097152)) = true. Proof. vm_cast_no_check (eq_refl true). Qed.
+Lemma sweep_full_11 : sweep_int bigchunk (of_Z (11 * 2097152)) = true. Proof. vm_cast_no_check (eq_refl true). Qed.
+Lemma sweep_full_12 : sweep_int bigchunk (of_Z (12 * 2097152)) = true. Proof. vm_cast_no_check (eq_refl true). Qed.
+Lemma sweep_full_13 : sweep_int bigchunk (of_Z (13 * 2097152)) = true. Proof. vm_cast_no_check (eq_refl true). Qed.
+Lemma sweep_full_14 : sweep_int bigchunk (of_Z (14 * 2097152)) = true. Proof. vm_cast_no_check (eq_refl true). Qed.
+Lemma sweep_full_15 : sweep_int bigchunk (of_Z (15 * 2097152)) = true. Proof. vm_cast_no_check (eq_refl true). Qed.
+Lemma sweep_full_16 : sweep_int bigchunk (of_Z (16 * 2097152)) = true. Proof. vm_cast_no_check (eq_refl true). Qed.
+Lemma sweep_full_17 : sweep_int bigchunk (of_Z (17 * 2097152)) = true. Proof. vm_cast_no_check (eq_refl true). Qed.
+Lemma sweep_full_18 : sweep_int bigchunk (of_Z (18 * 2097152)) = true. Proof. vm_cast_no_check (eq_refl true). Qed.
+Lemma sweep_full_19 : sweep_int bigchunk (of_Z (19 * 2097152)) = true. Proof. vm_cast_no_check (eq_refl true). Qed.
+Lemma sweep_full_20 : sweep_int bigchunk (of_Z (20 * 2097152)) = true. Proof. vm_cast_no_check (eq_refl true). Qed.
+Lemma sweep_full_21 : sweep_int bigchunk (of_Z (21 * 2097152)) = true. Proof. vm_cast_no_check (eq_refl true). Qed.
+Lemma sweep_full_22 : sweep_int bigchunk (of_Z (22 * 2097152)) = true. Proof. vm_cast_no_check (eq_refl true). Qed.
+Lemma sweep_full_23 : sweep_int bigchunk (of_Z (23 * 2097152)) = true. Proof. vm_cast_no_check (eq_refl true). Qed.
+Lemma sweep_full_24 : sweep_int bigchunk (of_Z (24 * 2097152)) = true. Proof. vm_cast_no_check (eq_refl true). Qed.
+Lemma sweep_full_25 : sweep_int bigchunk (of_Z (25 * 2097152)) = true. Proof. vm_cast_no_check (eq_refl true). Qed.
+Lemma sweep_full_26 : sweep_int bigchunk (of_Z (26 * 2097152)) = true. Proof. vm_cast_no_check (eq_refl true). Qed.
+Lemma sweep_full_27 : sweep_int bigchunk (of_Z (27 * 2097152)) = true. Proof. vm_cast_no_check (eq_refl true). Qed.
+Lemma sweep_full_28 : sweep_int bigchunk (of_Z (28 * 2097152)) = true. Proof. vm_cast_no_check (eq_refl true). Qed.
+Lemma sweep_full_29 : sweep_int bigchunk (of_Z (29 * 2097152)) = true. Proof. vm_cast_no_check (eq_refl true). Qed.
+Lemma sweep_full_30 : sweep_int bigchunk (of_Z (30 * 2097152)) = true. Proof. vm_cast_no_check (eq_refl true). Qed.
+Lemma sweep_full_31 : sweep_int bigchunk (of_Z (31 * 2097152)) = true. Proof. vm_cast_no_check (eq_refl true). Qed.
+Lemma sweep_full_32 : sweep_int bigchunk (of_Z (32 * 2097152)) = true. Proof. vm_cast_no_check (eq_refl true). Qed.
+Lemma sweep_full_33 : sweep_int bigchunk (of_Z (33 * 2097152)) = true. Proof. vm_cast_no_check (eq_refl true). Qed.
+Lemma sweep_full_34 : sweep_int bigchunk (of_Z (34 * 2097152)) = true. Proof. vm_cast_no_check (eq_refl true). Qed.
+Lemma sweep_full_35 : sweep_int bigchunk (of_Z (35 * 2097152)) = true. Proof. vm_cast_no_check (eq_refl true). Qed.
+Lemma sweep_full_36 : sweep_int bigchunk (of_Z (36 * 2097152)) = true. Proof. vm_cast_no_check (eq_refl true). Qed.
+Lemma sweep_full_37 : sweep_int bigchunk (of_Z (37 * 2097152)) = true. Proof. vm_cast_no_check (eq_refl true). Qed.
+Lemma sweep_full_38 : sweep_int bigchunk (of_Z (38 * 2097152)) = true. Proof. vm_cast_no_check (eq_refl true). Qed.
+Lemma sweep_full_39 : sweep_int bigchunk (of_Z (39 * 2097152)) = true. Proof. vm_cast_no_check (eq_refl true). Qed.
+Lemma sweep_full_40 : sweep_int bigchunk (of_Z (40 * 2097152)) = true. Proof. vm_cast_no_check (eq_refl true). Qed.
+Lemma sweep_full_41 : sweep_int bigchunk (of_Z (41 * 2097152)) = true. Proof. vm_cast_no_check (eq_refl true). Qed.
+Lemma sweep_full_42 : sweep_int bigchunk (of_Z (42 * 2097152)) = true. Proof. vm_cast_no_check (eq_refl true). Qed.
+Lemma sweep_full_43 : sweep_int bigchunk (of_Z (43 * 2097152)) = true. Proof. vm_cast_no_check (eq_refl true). Qed.
+Lemma sweep_full_44 : sweep_int bigchunk (of_Z (44 * 2097152)) = true. Proof. vm_cast_no_check (eq_refl true). Qed.
+Lemma sweep_full_45 : sweep_int bigchunk (of_Z (45 * 2097152)) = true. Proof. vm_cast_no_check (eq_refl true). Qed.
+Lemma sweep_full_46 : sweep_int bigchunk (of_Z (46 * 2097152)) = true. Proof. vm_cast_no_check (eq_refl true). Qed.
+Lemma sweep_full_47 : sweep_int bigchunk (of_Z (47 * 2097152)) = true. Proof. vm_cast_no_check (eq_refl true). Qed.
+Lemma sweep_full_48 : sweep_int bigchunk (of_Z (48 * 2097152)) = true. Proof. vm_cast_no_check (eq_refl true). Qed.
+Lemma sweep_full_49 : sweep_int bigchunk (of_Z (49 * 2097152)) = true. Proof. vm_cast_no_check (eq_refl true). Qed.
+Lemma sweep_full_50 : sweep_int bigchunk (of_Z (50 * 2097152)) = true. Proof. vm_cast_no_check (eq_refl true). Qed.
+Lemma sweep_full_51 : sweep_int bigchunk (of_Z (51 * 2097152)) = true. Proof. vm_cast_no_check (eq_refl true). Qed.
+Lemma sweep_full_52 : sweep_int bigchunk (of_Z (52 * 2097152)) = true. Proof. vm_cast_no_check (eq_refl true). Qed.
+Lemma sweep_full_53 : sweep_int bigchunk (of_Z (53 * 2097152)) = true. Proof. vm_cast_no_check (eq_refl true). Qed.
+Lemma sweep_full_54 : sweep_int bigchunk (of_Z (54 * 2097152)) = true. Proof. vm_cast_no_check (eq_refl true). Qed.
+Lemma sweep_full_55 : sweep_int bigchunk (of_Z (55 * 2097152)) = true. Proof. vm_cast_no_check (eq_refl true). Qed.
+Lemma sweep_full_56 : sweep_int bigchunk (of_Z (56 * 2097152)) = true. Proof. vm_cast_no_check (eq_refl true). Qed.
+Lemma sweep_full_57 : sweep_int bigchunk (of_Z (57 * 2097152)) = true. Proof. vm_cast_no_check (eq_refl true). Qed.
+Lemma sweep_full_58 : sweep_int bigchunk (of_Z (58 * 2097152)) = true. Proof. vm_cast_no_check (eq_refl true). Qed.
+Lemma sweep_full_59 : sweep_int bigchunk (of_Z (59 * 2097152)) = true. Proof. vm_cast_no_check (eq_refl true). Qed.
+Lemma sweep_full_60 : sweep_int bigchunk (of_Z (60 * 2097152)) = true. Proof. vm_cast_no_check (eq_refl true). Qed.
+Lemma sweep_full_61 : sweep_int bigchunk (of_Z (61 * 2097152)) = true. Proof. vm_cast_no_check (eq_refl true). Qed.
+Lemma sweep_full_62 : sweep_int bigchunk (of_Z (62 * 2097152)) = true. Proof. vm_cast_no_check (eq_refl true). Qed.
+Lemma sweep_full_63 : sweep_int bigchunk (of_Z (63 * 2097152)) = true. Proof. vm_cast_no_check (eq_refl true). Qed.
+
+Lemma bigchunk_Z : Z.of_nat bigchunk = 2097152. Proof. vm_compute. reflexivity. Qed.
+
+Lemma sweep_step : forall c, sweep_int bigchunk (of_Z (c * 2097152)) = true -> 0 <= c < 64 ->
+  (forall P, 0 <= P < c * 2097152 -> boundary_ok P) -> forall P, 0 <= P < (c + 1) * 2097152 -> boundary_ok P.
+Proof.
+  intros c Hs Hc Hprev P HP. destruct (Z_lt_le_dec P (c * 2097152)); [apply Hprev; lia|].
+  apply (sweep_int_ok bigchunk (c * 2097152) Hs); rewrite ?bigchunk_Z; lia.
+Qed.
+
+(* every boundary 0 <= P < 2^27 = 134217728; the rows needed for k < 2^50 are P <= P_last + 1 = 47453133 *)
+Theorem fl_inv_sweep_full : forall P, 0 <= P < P_swept -> boundary_ok P.
+Proof.
+  unfold P_swept. change (2 ^ 27) with ((63 + 1) * 2097152).
+  apply (sweep_step 63 sweep_full_63); [lia|]. change (63 * 2097152) with ((62 + 1) * 2097152).
+  apply (sweep_step 62 sweep_full_62); [lia|]. change (62 * 2097152) with ((61 + 1) * 2097152).
+  apply (sweep_step 61 sweep_full_61); [lia|]. change (61 * 2097152) with ((60 + 1) * 2097152).
+  apply (sweep_step 60 sweep_full_60); [lia|]. change (60 * 2097152) with ((59 + 1) * 2097152).
+  apply (sweep_step 59 sweep_full_59); [lia|]. change (59 * 2097152) with ((58 + 1) * 2097152).
+  apply (sweep_step 58 sweep_full_58); [lia|]. change (58 * 2097152) with ((57 + 1) * 2097152).
+  apply (sweep_step 57 sweep_full_57); [lia|]. change (57 * 2097152) with ((56 + 1) * 2097152).
+  apply (sweep_step 56 sweep_full_56); [lia|]. change (56 * 2097152) with ((55 + 1) * 2097152).
+  apply (sweep_step 55 sweep_full_55); [lia|]. change (55 * 2097152) with ((54 + 1) * 2097152).
+  apply (sweep_step 54 sweep_full_54); [lia|]. change (54 * 2097152) with ((53 + 1) * 2097152).
+  apply (sweep_step 53 sweep_full_53); [lia|]. change (53 * 2097152) with ((52 + 1) * 2097152).
+  apply (sweep_step 52 sweep_full_52); [lia|]. change (52 * 2097152) with ((51 + 1) * 2097152).
+  apply (sweep_step 51 sweep_full_51); [lia|]. change (51 * 2097152) with ((50 + 1) * 2097152).
+  apply (sweep_step 50 sweep_full_50); [lia|]. change (50 * 2097152) with ((49 + 1) * 2097152).
+  apply (sweep_step 49 sweep_full_49); [lia|]. change (49 * 2097152) with ((48 + 1) * 2097152).
+  apply (sweep_step 48 sweep_full_48); [lia|]. change (48 * 2097152) with ((47 + 1) * 2097152).
+  apply (sweep_step 47 sweep_full_47); [lia|]. change (47 * 2097152) with ((46 + 1) * 2097152).
+  apply (sweep_step 46 sweep_full_46); [lia|]. change (46 * 2097152) with ((45 + 1) * 2097152).
+  apply (sweep_step 45 sweep_full_45); [lia|]. change (45 * 2097152) with ((44 + 1) * 2097152).
+  apply (sweep_step 44 sweep_full_44); [lia|]. change (44 * 2097152) with ((43 + 1) * 2097152).
+  apply (sweep_step 43 sweep_full_43); [lia|]. change (43 * 2097152) with ((42 + 1) * 2097152).
+  apply (sweep_step 42 sweep_full_42); [lia|]. change (42 * 2097152) with ((41 + 1) * 2097152).
+  apply (sweep_step 41 sweep_full_41); [lia|]. change (41 * 2097152) with ((40 + 1) * 2097152).
+  apply (sweep_step 40 sweep_full_40); [lia|]. change (40 * 2097152) with ((39 + 1) * 2097152).
+  apply (sweep_step 39 sweep_full_39); [lia|]. change (39 * 2097152) with ((38 + 1) * 2097152).
+  apply (sweep_step 38 sweep_full_38); [lia|]. change (38 * 2097152) with ((37 + 1) * 2097152).
+  apply (sweep_step 37 sweep_full_37); [lia|]. change (37 * 2097152) with ((36 + 1) * 2097152).
+  apply (sweep_step 36 sweep_full_36); [lia|]. change (36 * 2097152) with ((35 + 1) * 2097152).
+  apply (sweep_step 35 sweep_full_35); [lia|]. change (35 * 2097152) with ((34 + 1) * 2097152).
+  apply (sweep_step 34 sweep_full_34); [lia|]. change (34 * 2097152) with ((33 + 1) * 2097152).
+  apply (sweep_step 33 sweep_full_33); [lia|]. change (33 * 2097152) with ((32 + 1) * 2097152).
+  apply (sweep_step 32 sweep_full_32); [lia|]. change (32 * 2097152) with ((31 + 1) * 2097152).
+  apply (sweep_step 31 sweep_full_31); [lia|]. change (31 * 2097152) with ((30 + 1) * 2097152).
+  apply (sweep_step 30 sweep_full_30); [lia|]. change (30 * 2097152) with ((29 + 1) * 2097152).
+  apply (sweep_step 29 sweep_full_29); [lia|]. change (29 * 2097152) with ((28 + 1) * 2097152).
+  apply (sweep_step 28 sweep_full_28); [lia|]. change (28 * 2097152) with ((27 + 1) * 2097152).
+  apply (sweep_step 27 sweep_full_27); [lia|]. change (27 * 2097152) with ((26 + 1) * 2097152).
+  apply (sweep_step 26 sweep_full_26); [lia|]. change (26 * 2097152) with ((25 + 1) * 2097152).
+  apply (sweep_step 25 sweep_full_25); [lia|]. change (25 * 2097152) with ((24 + 1) * 2097152).
+  apply (sweep_step 24 sweep_full_24); [lia|]. change (24 * 2097152) with ((23 + 1) * 2097152).
+  apply (sweep_step 23 sweep_full_23); [lia|]. change (23 * 2097152) with ((22 + 1) * 2097152).
+  apply (sweep_step 22 sweep_full_22); [lia|]. change (22 * 2097152) with ((21 + 1) * 2097152).
+  apply (sweep_step 21 sweep_full_21); [lia|]. change (21 * 2097152) with ((20 + 1) * 2097152).
+  apply (sweep_step 20 sweep_full_20); [lia|]. change (20 * 2097152) with ((19 + 1) * 2097152).
+  apply (sweep_step 19 sweep_full_19); [lia|]. change (19 * 2097152) with ((18 + 1) * 2097152).
+  apply (sweep_step 18 sweep_full_18); [lia|]. change (18 * 2097152) with ((17 + 1) * 2097152).
+  apply (sweep_step 17 sweep_full_17); [lia|]. change (17 * 2097152) with ((16 + 1) * 2097152).
+  apply (sweep_step 16 sweep_full_16); [lia|]. change (16 * 2097152) with ((15 + 1) * 2097152).
+  apply (sweep_step 15 sweep_full_15); [lia|]. change (15 * 2097152) with ((14 + 1) * 2097152).
+  apply (sweep_step 14 sweep_full_14); [lia|]. change (14 * 2097152) with ((13 + 1) * 2097152).
+  apply (sweep_step 13 sweep_full_13); [lia|]. change (13 * 2097152) with ((12 + 1) * 2097152).
+  apply (sweep_step 12 sweep_full_12); [lia|]. change (12 * 2097152) with ((11 + 1) * 2097152).
+  apply (sweep_step 11 sweep_full_11); [lia|]. change (11 * 2097152) with ((10 + 1) * 2097152).
+  apply (sweep_step 10 sweep_full_10); [lia|]. change (10 * 2097152) with ((9 + 1) * 2097152).
+  apply (sweep_step 9 sweep_full_9); [lia|]. change (9 * 2097152) with ((8 + 1) * 2097152).
+  apply (sweep_step 8 sweep_full_8); [lia|]. change (8 * 2097152) with ((7 + 1) * 2097152).
+  apply (sweep_step 7 sweep_full_7); [lia|]. change (7 * 2097152) with ((6 + 1) * 2097152).
+  apply (sweep_step 6 sweep_full_6); [lia|]. change (6 * 2097152) with ((5 + 1) * 2097152).
+  apply (sweep_step 5 sweep_full_5); [lia|]. change (5 * 2097152) with ((4 + 1) * 2097152).
+  apply (sweep_step 4 sweep_full_4); [lia|]. change (4 * 2097152) with ((3 + 1) * 2097152).
+  apply (sweep_step 3 sweep_full_3); [lia|]. change (3 * 2097152) with ((2 + 1) * 2097152).
+  apply (sweep_step 2 sweep_full_2); [lia|]. change (2 * 2097152) with ((1 + 1) * 2097152).
+  apply (sweep_step 1 sweep_full_1); [lia|]. change (1 * 2097152) with ((0 + 1) * 2097152).
+  apply (sweep_step 0 sweep_full_0); [lia|]. 
+  intros P HP. lia.
+Qed.
+
+(* ---- the monotone squeeze ---- *)
+Lemma T_TZ : forall p : nat, Z.of_nat (T p) = TZ (Z.of_nat p).
+Proof.
+  intros p. pose proof (T_double p). unfold TZ. apply Z.div_unique_exact; [lia|]. nia.
+Qed.
+
+(* if the pipeline is exact on both sides of every boundary up to Pm, it is exact everywhere below T Pm:
+   between two consecutive boundaries the floored pipeline is squeezed, being monotone (tril_p_fl_mono) *)
+Theorem fl_inv_from_boundaries : forall Pm : Z, 0 <= Pm ->
+  (forall P, 0 <= P <= Pm -> boundary_ok P) -> TZ Pm <= 2 ^ 53 ->
+  forall k : nat, Z.of_nat k < TZ Pm -> tril_inv_fl (Z.of_nat k) = pairZ (tril_inv k).
+Proof.
+  intros Pm HPm Hall Hm k Hk. rewrite tril_inv_eq. cbv zeta.
+  pose proof (sqrt_row k) as Hr. cbv zeta in Hr.
+  set (p := ((N.to_nat (N.sqrt (1 + 8 * N.of_nat k)) - 1) / 2)%nat) in *.
+  destruct Hr as [Hr1 Hr2].
+  assert (HpPm : Z.of_nat p < Pm).
+  { destruct (Z_lt_le_dec (Z.of_nat p) Pm) as [|Hge]; [assumption|]. exfalso.
+    assert (T (Z.to_nat Pm) <= T p)%nat by (apply T_mono; lia).
+    pose proof (T_TZ (Z.to_nat Pm)) as HT. rewrite Z2Nat.id in HT by lia. lia. }
+  set (P := Z.of_nat p) in *.
+  pose proof (T_TZ p) as HTp. fold P in HTp.
+  pose proof (T_TZ (S p)) as HTsp. replace (Z.of_nat (S p)) with (P + 1) in HTsp by lia.
+  assert (HTm : TZ (P + 1) <= TZ Pm).
+  { assert (T (S p) <= T (Z.to_nat Pm))%nat by (apply T_mono; lia).
+    pose proof (T_TZ (Z.to_nat Pm)) as HT. rewrite Z2Nat.id in HT by lia. lia. }
+  destruct (Hall P ltac:(lia)) as [Hlo _].
+  destruct (Hall (P + 1) ltac:(lia)) as [_ Hhi]. specialize (Hhi ltac:(lia)).
+  unfold tril_inv_fl in Hlo, Hhi. injection Hlo as Hlo _. injection Hhi as Hhi _.
+  assert (Hfl : tril_p_fl (Z.of_nat k) = P).
+  { pose proof (tril_p_fl_mono (TZ P) (Z.of_nat k) ltac:(lia) ltac:(lia) ltac:(lia)).
+    pose proof (tril_p_fl_mono (Z.of_nat k) (TZ (P + 1) - 1) ltac:(lia) ltac:(lia) ltac:(lia)).
+    lia. }
+  unfold tril_inv_fl. rewrite Hfl.
+  unfold pairZ; simpl fst; simpl snd. f_equal; [lia|].
+  fold (TZ P). fold (T p). lia.
+Qed.
+
+(* the fully swept range: every k < T (2^27 - 1) = 2^53 - 3 * 2^26 + 1, which contains [0, 2^50) *)
+Theorem fl_inv_upto : forall k : nat, Z.of_nat k < TZ (P_swept - 1) ->
+  tril_inv_fl (Z.of_nat k) = pairZ (tril_inv k).
+Proof.
+  apply fl_inv_from_boundaries.
+  - vm_compute. discriminate.
+  - intros P HP. apply fl_inv_sweep_full. lia.
+  - vm_compute. discriminate.
+Qed.
+
+Example swept_range : TZ (P_swept - 1) = 2 ^ 53 - 2 ^ 26 /\ 2 ^ 50 < TZ (P_swept - 1).
+Proof. vm_compute. split; reflexivity. Qed.
+
+(* fl_inv again, this time from the sweep and the squeeze alone (no analysis of the square root) *)
+Corollary fl_inv_by_sweep : forall k : nat, Z.of_nat k < 2 ^ 50 -> tril_inv_fl (Z.of_nat k) = pairZ (tril_inv k).
+Proof. intros k Hk. apply fl_inv_upto. destruct swept_range as [_ H]. lia. Qed.
+Local Close Scope Z_scope.
+
+Print Assumptions fl_inv.
+Print Assumptions fl_inv_sweep.
+Print Assumptions fl_inv_sweep_full.
+Print Assumptions fl_inv_upto.
+Print Assumptions fl_inv_from_boundaries.
+Print Assumptions fl_inv_by_sweep.
